@@ -132,7 +132,7 @@ def _eval(t, sign, arrays, zero_globals):
     if t[0] == "m" and t[2].endswith("::_mp_size"):
         p = apath(t)
         fl = fields_of(p[2])
-        if p[0] == "l" and p[1] in arrays and fl and fl[0].endswith("::_mp_num"):
+        if (p[0] == "l" or p[0].startswith("p")) and p[1] in arrays and fl and fl[0].endswith("::_mp_num"):
             return sign
         return None
     if t[0] == "u" and t[1] == "!":
@@ -168,7 +168,7 @@ def _eval(t, sign, arrays, zero_globals):
         x, z = strip(t[3][0]), strip(t[3][1])
         for u, w in ((x, z), (z, x)):
             pu = apath(u)
-            if pu[0] == "l" and pu[1] in arrays and is_var(w) and w[2] in zero_globals:
+            if (pu[0] == "l" or pu[0].startswith("p")) and pu[1] in arrays and is_var(w) and w[2] in zero_globals:
                 if callee(t) == "mpq_equal":
                     return int(sign == 0)
                 return sign if u is x else -sign
@@ -176,9 +176,35 @@ def _eval(t, sign, arrays, zero_globals):
     return None
 
 
+ARRAY_SPACE = {"mpq_QSget_x_array": "struct", "mpq_QSget_rc_array": "struct", "mpq_QSget_pi_array": "row", "mpq_QSget_slack_array": "row"}
+
+
+def _section_prints(prog, f, arrays, zero_globals):
+    """{(block, idx): (array name, call)} of the value-to-text conversions of f, and for each whether it is reachable for a negative /
+    zero / positive entry (finite enumeration of the sign through the CFG)"""
+    prints = {}
+    for b, i, c in f.calls():
+        if callee(c) == "mpq_get_str" and len(c[3]) >= 3:
+            t = strip(c[3][2])
+            if isinstance(t, list) and t and t[0] == "i" and is_var(strip(t[1])) and strip(t[1])[2] in arrays:
+                prints[(b["id"], i)] = (strip(t[1])[2], c, t[2])
+    reach = {}
+    for sign in (-1, 0, 1):
+        def refine(cond, truth, st, sign=sign):
+            v = _eval(cond, sign, arrays, zero_globals)
+            if v is None:
+                return None
+            return [st] if bool(v) == truth else []
+        fl = Flow(prog, f, [(sign,)], lambda b, i, e, st: None, refine).run()
+        reach[sign] = {k for k in prints if fl.IN.get(k[0])}
+    return prints, reach
+
+
 def run_nzfilter(prog, fn="QSexact_print_sol", rule="R-NZFILTER"):
     res = RuleResult(rule, "each list section of QSexact_print_sol converts entry i to text exactly when it is non-zero: reachable for a "
-                           "negative and for a positive entry, unreachable for a zero entry (finite enumeration of the sign through the CFG)")
+                           "negative and for a positive entry, unreachable for a zero entry (finite enumeration of the sign through the CFG); "
+                           "when the sections are printed by a helper the same is decided inside the helper, and the call passes the name "
+                           "array of the value array's own index space")
     f = prog.require_fn(fn)
     getters = {}
     for b, i, c in f.calls():
@@ -188,23 +214,28 @@ def run_nzfilter(prog, fn="QSexact_print_sol", rule="R-NZFILTER"):
     if len(getters) < 4:
         raise AnalysisBroken("%s: fewer than 4 solution arrays fetched" % fn)
     zero_globals = {"__zeroLpNum_mpq__"}
-    prints = {}
+    # sections: (array in fn, function that prints it, array name inside that function, call site or None)
+    sections = []
+    prints, reach = _section_prints(prog, f, getters, zero_globals)
+    for k, (a, c, ix) in sorted(prints.items()):
+        sections.append((a, f, a, k, c, reach, None))
     for b, i, c in f.calls():
-        if callee(c) == "mpq_get_str" and len(c[3]) >= 3:
-            t = strip(c[3][2])
-            if isinstance(t, list) and t and t[0] == "i" and is_var(strip(t[1])) and strip(t[1])[2] in getters:
-                prints[(b["id"], i)] = (strip(t[1])[2], c)
-    reach = {}
-    for sign in (-1, 0, 1):
-        def refine(cond, truth, st, sign=sign):
-            v = _eval(cond, sign, getters, zero_globals)
-            if v is None:
-                return None
-            return [st] if bool(v) == truth else []
-        fl = Flow(prog, f, [(sign,)], lambda b, i, e, st: None, refine).run()
-        reach[sign] = {k for k in prints if fl.IN.get(k[0])}
+        g = prog.resolve(f, c[1]) if c[1] is not None else None
+        if g is None or not g.blocks or (callee(c) or "").startswith("mpq_QS"):
+            continue
+        for pos, a in enumerate(c[3]):
+            a = strip(a)
+            if is_var(a) and a[2] in getters and pos < len(g.params):
+                pn = g.params[pos][0]
+                gp, gr = _section_prints(prog, g, {pn}, zero_globals)
+                if not gp:
+                    res.obligations += 1
+                    res.violations.append(Violation(rule, "%s|section of %s has no value print" % (fn, a[2]), fn, short_loc(c[4]),
+                                                    "%s is handed to %s, which never converts an entry of it to text" % (a[2], g.name)))
+                for k, (an, cc, ix) in sorted(gp.items()):
+                    sections.append((a[2], g, an, k, cc, gr, (c, pos, ix)))
     seen_arrays = set()
-    for k, (a, c) in sorted(prints.items()):
+    for (a, g, an, k, c, reach, site) in sections:
         res.obligations += 1
         res.nontrivial += 1
         seen_arrays.add(a)
@@ -215,16 +246,36 @@ def run_nzfilter(prog, fn="QSexact_print_sol", rule="R-NZFILTER"):
             problems.append("a positive entry is not printed")
         if k in reach[0]:
             problems.append("a zero entry is printed")
+        if site is not None:
+            call, pos, ix = site
+            # the helper prints names[j] next to values[i]: same index, and the call passes the name array of the value array's space
+            want_space = ARRAY_SPACE.get(getters[a])
+            name_params = []
+            for p2, arg in enumerate(call[3]):
+                fl = fields_of(apath(arg)[2])
+                if fl and fl[-1].split("::")[1] in NAME_SPACE and p2 < len(g.params):
+                    name_params.append((g.params[p2][0], NAME_SPACE[fl[-1].split("::")[1]], fl[-1].split("::")[1]))
+            for (npn, space, fldname) in name_params:
+                if want_space and space != want_space:
+                    problems.append("the %s values are listed under %s" % (want_space, fldname))
+                for b2, i2, e2 in g.elements():
+                    if e2[0] == "S":
+                        t = strip(e2[1])
+                        if isinstance(t, list) and t and t[0] == "i" and is_var(strip(t[1]), name=npn) and show(t[2]) != show(ix):
+                            problems.append("name index %s differs from value index %s" % (show(t[2]), show(ix)))
+            if not name_params:
+                problems.append("no name array of the problem is passed along")
         if problems:
-            res.violations.append(Violation(rule, "%s|section of %s: %s" % (fn, a, "; ".join(problems)), fn, short_loc(c[4]),
-                                            "%s: %s - the section must list precisely the non-zero entries" % (show(c)[:60], "; ".join(problems))))
+            problems = sorted(set(problems))
+            res.violations.append(Violation(rule, "%s|section of %s: %s" % (fn, a, "; ".join(problems)), g.name, short_loc(c[4]),
+                                            "%s: %s - the section must list precisely the non-zero entries, each next to its own name" % (show(c)[:60], "; ".join(problems))))
         else:
-            res.sample({"array": a, "getter": getters[a], "verdict": "printed iff non-zero"})
+            res.sample({"array": a, "getter": getters[a], "printed_in": g.name, "verdict": "printed iff non-zero"})
     for a in sorted(set(getters) - seen_arrays):
         res.obligations += 1
         res.violations.append(Violation(rule, "%s|section of %s has no value print" % (fn, a), fn, short_loc(f.loc),
                                         "no conversion of %s[i] to text found" % a))
     res.counts["sections"] = len(getters)
-    res.counts["value_prints"] = len(prints)
-    res.floor("value prints", len(prints), 4)
+    res.counts["value_prints"] = len(sections)
+    res.floor("value prints", len(sections), 4)
     return res
